@@ -33,7 +33,9 @@ const CONSUMERS: &[(&str, &str)] = &[
     ("delayed-external", "vcons 100"),
     ("failing", "{ vcons; vexit 3; }"),
 ];
-const PAYLOADS: &[(&str, usize)] = &[("0B", 0), ("1line", 8), ("64K-1", 65535), ("64K+1", 65537), ("1M", 1 << 20)];
+/// (tag, bytes, content): content "u" is the multi-byte pattern whose characters straddle every
+/// 4096-byte write boundary.
+const PAYLOADS: &[(&str, usize, &str)] = &[("0B", 0, ""), ("1line", 8, ""), ("64K-1", 65535, ""), ("64K+1", 65537, ""), ("1M", 1 << 20, ""), ("64K+1:utf8", 65537, " u"), ("1M:utf8", 1 << 20, " u")];
 
 const PRELUDE: &str = "pf() { vprod $N; }\nff() { vcat; }\ncf() { vcons; }\n";
 
@@ -42,8 +44,9 @@ struct Case {
     tags: Vec<String>,
 }
 
-fn mk(pipeline: &str, n: usize, needs_p: bool, wrap: &str) -> String {
-    let mut s = format!("N={n}\n{PRELUDE}");
+fn mk(pipeline: &str, n: (usize, &str), needs_p: bool, wrap: &str) -> String {
+    let n = format!("{}{}", n.0, n.1);
+    let mut s = format!("N='{n}'\n{PRELUDE}");
     if needs_p {
         s.push_str("P=$(vprod $N; echo x); P=${P%x}\n");
     }
@@ -66,7 +69,7 @@ pub fn run(tier: Tier, replay: Option<Value>) -> ! {
     } else {
         for (pn, p) in PRODUCERS {
             for (cn, c) in CONSUMERS {
-                for (sn, n) in PAYLOADS {
+                for (sn, n, k) in PAYLOADS {
                     if cn.starts_with("while-read") && *n > 70_000 {
                             continue;
                     }
@@ -75,11 +78,12 @@ pub fn run(tier: Tier, replay: Option<Value>) -> ! {
                         continue;
                     }
                     for wrap in ["plain", "pipefail", "cmdsub"] {
-                        if wrap != "plain" && tier == Tier::Quick && *sn != "1line" && *cn != "early-exit" {
+                        let utf8_cmdsub = wrap == "cmdsub" && sn.ends_with(":utf8") && (*pn == "external" || *cn == "external");
+                        if wrap != "plain" && tier == Tier::Quick && *sn != "1line" && *cn != "early-exit" && !utf8_cmdsub {
                             continue;
                         }
                         let tags = vec![format!("stage0:{pn}"), format!("stageN:{cn}"), format!("payload:{sn}"), format!("wrap:{wrap}"), "stages:2".to_string()];
-                        cases.push(Case { script: mk(&format!("{p} | {c}"), *n, *pn == "builtin", wrap), tags });
+                        cases.push(Case { script: mk(&format!("{p} | {c}"), (*n, k), *pn == "builtin", wrap), tags });
                     }
                 }
             }
@@ -87,9 +91,9 @@ pub fn run(tier: Tier, replay: Option<Value>) -> ! {
         // early exit in the middle and at the end of three stages
         for (fn_, f) in FILTERS.iter().take(4) {
             let tags = vec!["stage0:external".to_string(), format!("stage1:{fn_}"), "stageN:early-exit".to_string(), "payload:1M".to_string(), "wrap:plain".to_string(), "stages:3".to_string()];
-            cases.push(Case { script: mk(&format!("vprod N | {f} | vhead 1"), 1 << 20, false, "plain"), tags });
+            cases.push(Case { script: mk(&format!("vprod N | {f} | vhead 1"), (1 << 20, ""), false, "plain"), tags });
         }
-        cases.push(Case { script: mk("vprod N | vhead 1 | vcons", 1 << 20, false, "plain"), tags: vec!["stage0:external".into(), "stage1:early-exit".into(), "stageN:external".into(), "payload:1M".into(), "wrap:plain".into(), "stages:3".into()] });
+        cases.push(Case { script: mk("vprod N | vhead 1 | vcons", (1 << 20, ""), false, "plain"), tags: vec!["stage0:external".into(), "stage1:early-exit".into(), "stageN:external".into(), "payload:1M".into(), "wrap:plain".into(), "stages:3".into()] });
         // three stages: every filter kind in the middle
         for (pn, p) in PRODUCERS {
             for (fn_, f) in FILTERS {
@@ -100,15 +104,15 @@ pub fn run(tier: Tier, replay: Option<Value>) -> ! {
                     if *cn == "early-exit" {
                         continue;
                     }
-                    for (sn, n) in PAYLOADS {
+                    for (sn, n, k) in PAYLOADS {
                         if (fn_.starts_with("while-read") || cn.starts_with("while-read")) && *n > 70_000 {
                             continue;
                         }
-                        if tier == Tier::Quick && !(*sn == "64K+1" || *sn == "1line") {
+                        if tier == Tier::Quick && !(*sn == "64K+1" || *sn == "1line" || *sn == "64K+1:utf8") {
                             continue;
                         }
                         let tags = vec![format!("stage0:{pn}"), format!("stage1:{fn_}"), format!("stageN:{cn}"), format!("payload:{sn}"), "wrap:plain".to_string(), "stages:3".to_string()];
-                        cases.push(Case { script: mk(&format!("{p} | {f} | {c}"), *n, *pn == "builtin", "plain"), tags });
+                        cases.push(Case { script: mk(&format!("{p} | {f} | {c}"), (*n, k), *pn == "builtin", "plain"), tags });
                     }
                 }
             }
@@ -119,13 +123,13 @@ pub fn run(tier: Tier, replay: Option<Value>) -> ! {
                 for (f1n, f1) in FILTERS.iter().take(4) {
                     for (f2n, f2) in FILTERS.iter().take(4) {
                         let tags = vec![format!("stage0:{pn}"), format!("stage1:{f1n}"), format!("stage2:{f2n}"), "stageN:external".to_string(), "payload:64K+1".to_string(), "wrap:plain".to_string(), "stages:4".to_string()];
-                        cases.push(Case { script: mk(&format!("{p} | {f1} | {f2} | vcons"), 65537, *pn == "builtin", "plain"), tags });
+                        cases.push(Case { script: mk(&format!("{p} | {f1} | {f2} | vcons"), (65537, ""), *pn == "builtin", "plain"), tags });
                     }
                 }
             }
         }
         // `$(cmd)` returns exactly cmd's output minus trailing newlines, with its status
-        for (k, body) in ["printf 'a\\n\\n\\n'", "printf '\\n\\na'", "printf 'a b\\n c\\n'", "vprod 70000", "vprod 70000; vexit 4", "printf ''", "printf '\\n'", "vexit 5", "echo a; echo b >&2"].iter().enumerate() {
+        for (k, body) in ["printf 'a\\n\\n\\n'", "printf '\\n\\na'", "printf 'a b\\n c\\n'", "vprod 70000", "vprod 70000; vexit 4", "vprod 70000 u", "vprod 1048576 u", "vprod 300000 u | vcat", "vprod 8 u", "printf 'é\\n\\n'", "printf ''", "printf '\\n'", "vexit 5", "echo a; echo b >&2"].iter().enumerate() {
             cases.push(Case { script: format!("x=$({body})\necho \"st=$? len=${{#x}}\"\nprintf '%s' \"$x\" | vcons\n"), tags: vec!["cmdsub-only".into(), format!("body:{k}")] });
         }
         // `read` consumes exactly one line from a shared descriptor
